@@ -17,7 +17,14 @@ def traj(kind, nsamp):
         ns, nc = len(system.network.species), system.space.size()
         data = UnitArray(np.arange(nsamp * ns * nc, dtype=float), "mmol")
         t = UnitArray(np.arange(nsamp, dtype=float), "s")
-        _CACHE[key] = (RDTrajectory(data, t, system), ns, nc)
+        if kind in ("g321", "g132"):
+            # a trajectory that carries a coarse-graining map (as simulate(..., cgmap=) returns it): it is ALREADY expanded over the
+            # original cells - every accessor addresses original cells; map values: group numbers, one dropped cell (-1)
+            cg = [(2 * k + 1) % 3 for k in range(nc)]
+            cg[1] = -1
+            _CACHE[key] = (RDTrajectory(data, t, system, cgmap=cg), ns, nc)
+        else:
+            _CACHE[key] = (RDTrajectory(data, t, system), ns, nc)
     return _CACHE[key]
 
 
